@@ -31,7 +31,8 @@ for pid in sorted(os.listdir(sd)):
     r = rows.get(pid, {})
     meta["property"] = pid.split("-")[0]
     meta["confirmation"] = {"command": f"tools/seeded_confirm.sh {pid} ... (see confirm.txt)", "result": conf}
-    meta["check"] = {"command": f"tools/run_seeded.sh 60 1 {pid}  (= ./check {pid.split("-")[0]} quick against a scratch worktree with patch.diff applied)",
+    prop = pid.split("-")[0]
+    meta["check"] = {"command": f"tools/run_seeded.sh 60 1 {pid}  (= ./check {prop} quick against a scratch worktree with patch.diff applied)",
                      "exit": r.get("exit"), "violated_invariants": r.get("invariants"), "runs": r.get("runs"), "note": notes.get(pid, "")}
     json.dump(meta, open(mp, "w"), indent=1)
     esc = lambda s: str(s).replace("|", "\\|").replace("\n", " ")
